@@ -1,3 +1,4 @@
+pub mod attrs;
 pub mod capi;
 pub mod echo;
 pub mod enc;
@@ -17,6 +18,7 @@ pub type LaneFn = fn(&str) -> String;
 
 pub fn find(name: &str) -> Option<LaneFn> {
     Some(match name {
+        "attrs" => attrs::run,
         "capi" => capi::run,
         "echo" => echo::run,
         "enc" => enc::run,
